@@ -51,6 +51,7 @@ pub uninterp spec fn locals_view(l: &Locals) -> Map<Seq<char>, Primitive>;
 // the call stack frames as seen by name lookups (Stack::find_name: nearest frame first; covered by the frame-routing unit)
 #[verifier::external_body] pub struct Frames { x: usize }
 pub uninterp spec fn frame_lookup(f: &Frames, name: Seq<char>) -> Option<Handle>;
+pub uninterp spec fn frame_labels(s: &StackRef) -> Seq<VString>;     // labels of the active call-stack frames, innermost last
 pub struct Ctx { pub stack: Vec<Primitive>, pub exit_state: Exit, pub locals: Locals, pub frames: Frames, pub callback_state: Option<Caps>, pub call_stack: StackRef }
 // everything of the context that is neither the operand stack nor the exit state
 pub open spec fn rest(c: &Ctx) -> (Locals, Frames, Option<Caps>, StackRef) { (c.locals, c.frames, c.callback_state, c.call_stack) }
@@ -73,6 +74,18 @@ CTX_EXTRA = r"""
     { unimplemented!() }
     #[verifier::external_body]
     pub fn rced_call_stack(&self) -> (r: StackRef) ensures r == self.call_stack { unimplemented!() }
+    // Ctx::add_frame / pop_frame -> Stack::extend / Stack::pop on the shared call stack (labels of the active frames, innermost last)
+    #[verifier::external_body]
+    pub fn add_frame(&mut self, label: VString)
+        ensures frame_labels(&final(self).call_stack) == frame_labels(&old(self).call_stack).push(label), final(self).stack == old(self).stack, final(self).exit_state == old(self).exit_state,
+                final(self).locals == old(self).locals, final(self).callback_state == old(self).callback_state
+    { unimplemented!() }
+    #[verifier::external_body]
+    pub fn pop_frame(&mut self)
+        requires frame_labels(&old(self).call_stack).len() > 0            // Stack::pop `expect`s a frame (R8)
+        ensures frame_labels(&final(self).call_stack) == frame_labels(&old(self).call_stack).drop_last(), final(self).stack == old(self).stack, final(self).exit_state == old(self).exit_state,
+                final(self).locals == old(self).locals, final(self).callback_state == old(self).callback_state
+    { unimplemented!() }
 """
 
 
@@ -375,7 +388,80 @@ fn main() {{}}
     return gen, obls, log
 
 
-UNITS_EXTRA = [VUnit("c19_call_lib", ["C19"], "call_lib handler", build_c19), VUnit("c07_make_function", ["C07"], "make_function: capture by reference (handle routing)", build_c07)]
+# =====================================================================================================================
+# C17 / C07: call -- function values (captures passed on), built-in methods (native frame kept on failure)
+C17_SPEC = r"""
+pub uninterp spec fn native_label_spec(v: &BuiltinV) -> VString;        // "<native code>#<variant>"
+#[verifier::external_body] pub fn native_label(v: &BuiltinV) -> (r: VString) ensures r == native_label_spec(v) { unimplemented!() }
+// BuiltInFunction::run (abstract callee): works on the operand stack, leaves the call-stack frames as they are,
+// never returns both a value and a bridge
+#[verifier::external_body]
+pub fn builtin_run(v: &BuiltinV, ctx: &mut Ctx) -> (r: Result<(Option<Primitive>, Option<BridgeV>), VErr>)
+    ensures frame_labels(&final(ctx).call_stack) == frame_labels(&old(ctx).call_stack), rest(final(ctx)).0 == rest(old(ctx)).0, final(ctx).callback_state == old(ctx).callback_state,
+            r is Ok ==> !(r->Ok_0.0 is Some && r->Ok_0.1 is Some)
+{ unimplemented!() }
+#[verifier::external_body] pub fn vpanic() requires false { unimplemented!() }
+"""
+
+
+def build_c17_call(repo):
+    src = Source(repo)
+    log = []
+    names = ["pop", "signal", "clear_stack", "clear_and_set_stack", "get_local_operating_stack"]
+    ctx = ctx_impl(src, log, names)
+    b = handler(src, log, "call", [
+        Rule("R1", "Primitive :: Function ( ref f )", "Primitive :: Function ( f )", why="ref binding on an owned scrutinee"),
+        Rule("R1", "Primitive :: BuiltInFunction ( ref variant )", "Primitive :: BuiltInFunction ( variant )", why="ref binding on an owned scrutinee"),
+        Rule("R1", "f . location ( ) . to_owned ( )", "clone_vs ( & f . location )", why="String clone of the function path"),
+        Rule("R1", "f . callback_state ( ) . clone ( )", "clone_caps_opt ( & f . callback_state )", why="capture map handle clone (same cells)"),
+        Rule("R1", "ctx . get_local_operating_stack ( ) . clone ( )", "clone_stack ( ctx . get_local_operating_stack ( ) )", why="Vec<Primitive>::clone"),
+        Rule("R1", "Cow :: Owned ( format ! $a )", "native_label ( & variant )", count=1, why="frame label of a built-in: format!(\"<native code>#{variant:?}\")"),
+        Rule("R6", "variant . run ( ctx )", "builtin_run ( & variant , ctx )", count=1, why="BuiltInFunction::run abstract"),
+        Rule("R3", ". with_context ( $$c )", "", why="context text dropped"),
+        Rule("R8", "unimplemented ! $a", "{ vpanic ( ) ; }", why="unimplemented!: a panic, excluded by the callee contract"),
+        Rule("R1", "first . clone ( )", "clone_vs ( first )", why="String clone"),
+    ])
+    gen = header(log, f"{INSTR}: call; {CTXF}: Ctx methods") + prelude("ctx.rs") + ctx + C17_SPEC + f"""
+//@ OBL C17.call.frames
+pub fn call(ctx: &mut Ctx, args: &Vec<VString>) -> (r: Result<(), VErr>)
+    ensures
+        // ---- calling a function value (closure): its own capture map travels with the request, the arguments are the operands below it
+        (args@.len() == 0 && old(ctx).stack@.len() > 0 && moved_out(old(ctx).stack@.last()) is Some && moved_out(old(ctx).stack@.last())->Some_0 is Function) ==> ({{
+            let f = moved_out(old(ctx).stack@.last())->Some_0->Function_0;
+            &&& r is Ok && final(ctx).stack@.len() == 0
+            &&& final(ctx).exit_state matches Exit::JumpRequest(req) && {{
+                &&& req.destination == JumpRequestDestination::Standard(f.location)
+                &&& req.arguments@ == old(ctx).stack@.drop_last()
+                &&& (req.callback_state is Some <==> f.callback_state is Some)
+                &&& (f.callback_state is Some ==> caps_view(&req.callback_state->Some_0) == caps_view(&f.callback_state->Some_0))
+            }}
+            &&& frame_labels(&final(ctx).call_stack) == frame_labels(&old(ctx).call_stack)
+        }}),
+        // ---- calling a built-in method: a `<native code>#..` frame is active while it runs; when it FAILS the frame is still
+        //      there (so the trace printed by `execute` names the built-in innermost); when it succeeds the frame is gone
+        (args@.len() == 0 && old(ctx).stack@.len() > 0 && moved_out(old(ctx).stack@.last()) is Some && moved_out(old(ctx).stack@.last())->Some_0 is BuiltInFunction) ==> ({{
+            let v = moved_out(old(ctx).stack@.last())->Some_0->BuiltInFunction_0;
+            &&& (r is Ok ==> frame_labels(&final(ctx).call_stack) == frame_labels(&old(ctx).call_stack))
+            &&& (r is Err ==> frame_labels(&final(ctx).call_stack) == frame_labels(&old(ctx).call_stack).push(native_label_spec(&v)))
+        }}),
+        // ---- calling a named function: no captures
+        args@.len() > 0 ==> (r is Ok && final(ctx).stack@.len() == 0 && (final(ctx).exit_state matches Exit::JumpRequest(req) &&
+            req.destination == JumpRequestDestination::Standard(args@[0]) && req.arguments@ == old(ctx).stack@ && req.callback_state is None)),
+{{
+{render(b, 1)}
+}}
+
+}} // verus!
+fn main() {{}}
+"""
+    obls = ctx_obls(names, ["C17"]) + [Obl("C17.call.frames", ["C17", "C07"], fn="call",
+            desc="call: a function value's capture map is passed with the jump request; a built-in method runs under a `<native code>#..` frame that is still on the call stack when the built-in fails and removed when it succeeds")]
+    return gen, obls, log
+
+
+UNITS_EXTRA = [VUnit("c17_call", ["C17", "C07"], "call handler: captures passed on; native frame kept on failure", build_c17_call), VUnit("c19_call_lib", ["C19"], "call_lib handler", build_c19), VUnit("c07_make_function", ["C07"], "make_function: capture by reference (handle routing)", build_c07)]
+UNITS_EXTRA[0].assumes = ["BuiltInFunction::run is an abstract callee that does not change the call-stack frames", "heap pointers abstract"]
+UNITS_EXTRA = UNITS_EXTRA[1:] + UNITS_EXTRA[:1]
 UNITS_EXTRA[0].assumes = ["libloading / the dynamic library call itself and the ABI of &[Primitive] are outside the contract (interpreter.rs process_library_jump_request is a separate unit)"]
 UNITS_EXTRA[1].assumes = ["cell semantics of the gc crate assumed: clone of a handle keeps the cell; a write through one handle is seen through all handles of that cell",
                           "std::HashMap as a finite map; Stack::find_name (frame lookup) is an abstract callee here"]
